@@ -148,7 +148,8 @@ CLAIMED = {
              "read_dtc_information's echo-first error ordering) and for ALL byte strings, the model returns or fails with a documented outcome - IndexError / struct.error / ... are unreachable "
              "(Safe combinators; strong induction on the remaining bytes for each loop; the snapshot cursor provably advances). Termination of every parser loop is Lean's own termination check. "
              "Hypotheses: the client configuration is valid (DID size 1..8, extended-data size given) and the sub-function was accepted by make_request. Parsing of the frame itself: C17 parse_total. "
-             "Call level (13 simple entry points, call_documented): for every list of frames - any bytes, any number, any timing - the method returns or raises a documented outcome (induction over arrivals). "
+             "Call level (13 simple entry points: call_documented; every other family: callWith_documented instantiated per family): for every list of frames - any bytes, any number, any timing - the method "
+             "returns or raises a documented outcome (induction over arrivals). "
              "Tied by ~10 k (thorough 170 k) truncated / mutated / extended replies per run on the real client with a step budget, all switches on and off, codecs whose decode raises, and a "
              "frame-level suite: every client entry point x whole frames as the connection delivers them (empty, 7F alone, 7F + id, truncated negative responses, foreign ids, junk; also after 0x78).",
         design_ref='DESIGN.md §3 C04',
